@@ -206,6 +206,15 @@ impl S {
                         self.act(format!("invalid variant (fresh): timeout carrying a forged QC of round {}", fr));
                         self.p.send(donor, &ConsensusMessage::Timeout(t)).await;
                     }
+                    // spoofed in the receiver's own name, carrying a forged QC far ahead
+                    {
+                        let ahead = round + self.rng.gen_range(1, 6);
+                        let forged = QC { hash: rand_digest(&mut self.rng), round: ahead, votes: hq.votes.clone() };
+                        let mut t = self.p.mk_timeout(donor, ahead + 1, forged);
+                        t.author = self.p.name(self.p.r);
+                        self.act(format!("invalid variant (fresh): timeout in the receiver's own name carrying a forged QC of round {}", ahead));
+                        self.p.send(donor, &ConsensusMessage::Timeout(t)).await;
+                    }
                     self.p.settle().await;
                 }
                 for i in signers {
@@ -525,7 +534,7 @@ pub fn corrupt(rng: &mut StdRng, p: &Puppets, m: ConsensusMessage) -> Option<(St
         crypto::generate_keypair(&mut r2)
     };
     Some(match m {
-        ConsensusMessage::Propose(mut b) => match rng.gen_range(0, 7) {
+        ConsensusMessage::Propose(mut b) => match rng.gen_range(0, 8) {
             0 => {
                 b.signature = flip_sig(rng, &b.signature);
                 ("block: signature bit flipped".into(), ConsensusMessage::Propose(b))
@@ -572,6 +581,18 @@ pub fn corrupt(rng: &mut StdRng, p: &Puppets, m: ConsensusMessage) -> Option<(St
                 }
                 b.signature = p.topo.sign(a, &b.digest());
                 ("block: embedded QC round altered".into(), ConsensusMessage::Propose(b))
+            }
+            6 => {
+                // a "QC" of round 0 that is not the genesis QC: points at an arbitrary stored block
+                let a = p.topo.index_of(&b.author)?;
+                if a == p.r {
+                    return None;
+                }
+                let target = p.blocks.values().filter(|x| x.round > 0 && x.round < b.round).map(|x| x.digest()).next()?;
+                b.qc = QC { hash: target, round: 0, votes: vec![] };
+                b.tc = None;
+                b.signature = p.topo.sign(a, &b.digest());
+                ("block: round-0 QC with a non-genesis hash".into(), ConsensusMessage::Propose(b))
             }
             5 => {
                 // The digest does not cover the TC: anybody relaying a block can splice a forged TC
